@@ -136,6 +136,43 @@ def _ascii_const(f, op):
     return bool(flow.origins(f, op))
 
 
+def _byte_classifier(prog, g):
+    """for a crate function (Option<u8> / u8) -> enum that switches on the byte: (variants produced only for ASCII byte
+    constants, variants of the default arm); None when the function is not of that shape"""
+    if g is None or g.kind == "closure" or g.argc != 1:
+        return None
+    sws = [bb for bb in sorted(g.reachable) if g.term(bb)["k"] == "switch" and g.term(bb).get("ty") == "u8"]
+    if len(sws) != 1:
+        return None
+    t = g.term(sws[0])
+
+    def variants_from(x, avoid):
+        out = set()
+        for bb in cfg.reach_from(g, x, avoid=avoid):
+            for st in g.stmts(bb):
+                rv = st.get("rv")
+                if st["k"] == "assign" and st["place"] == {"l": 0} and rv and rv["k"] == "agg" and "variant" in rv:
+                    out.add(rv["variant"])
+        return out
+    targets = {x for _, x in t["arms"]} | {t["otherwise"]}
+    ascii_vs, other_vs = set(), set()
+    for v, x in t["arms"]:
+        vs = variants_from(x, targets - {x})
+        if v.isdigit() and int(v) < 128:
+            ascii_vs |= vs
+        else:
+            other_vs |= vs
+    default_vs = variants_from(t["otherwise"], targets - {t["otherwise"]})
+    # also the None side of the Option
+    for bb in sorted(g.reachable):
+        for st in g.stmts(bb):
+            rv = st.get("rv")
+            if st["k"] == "assign" and st["place"] == {"l": 0} and rv and rv["k"] == "agg" and "variant" in rv \
+                    and rv["variant"] not in ascii_vs:
+                default_vs.add(rv["variant"])
+    return ascii_vs - other_vs - default_vs, default_vs | other_vs
+
+
 def unprotected_blocks(prog, f):
     """blocks reachable from the entry when every edge taken on ASCII / boundary evidence is removed.  Evidence edges:
     the true side of starts_with / ends_with / strip_prefix (ASCII constant) and is_char_boundary, the Some side of a
@@ -165,6 +202,39 @@ def unprotected_blocks(prog, f):
                 if not any(v == "1" for v, _ in t["arms"]):
                     removed.add((sb, t["otherwise"]))
                     descr[(sb, t["otherwise"])] = "checked %s at %s" % (src[0].call.name.split("::")[-1], f.tloc(sb))
+    # a marker decoded from the first byte (`Whitespace::from_byte(s.as_bytes().first().copied())`): on the side where the
+    # decoded value is one the classifier produces for ASCII bytes only, byte 0 is ASCII and offset 1 is a boundary
+    for sb in sorted(f.reachable):
+        t = f.term(sb)
+        if t["k"] != "switch":
+            continue
+        cd = flow.cond_of(f, sb)
+        if cd.kind == "call" and cd.call.name.endswith(("PartialEq>::eq", "PartialEq>::ne", "PartialEq::eq", "PartialEq::ne")):
+            ee = flow.enum_eq(f, cd)
+            if ee is None:
+                continue
+            var, others = ee
+            srcs = [o for o in others if o.kind == "call"]
+            if not srcs or len(srcs) != len([o for o in others if o.kind != "const"]):
+                continue
+            ok_all = True
+            for o in srcs:
+                tab = _byte_classifier(prog, prog.fns.get(o.call.name))
+                first = o.call.args and any(q.kind == "call" and q.call.name.rsplit("::", 1)[-1] in ("first", "get", "copied", "next")
+                                            for q in flow.origins(f, o.call.args[0], through_calls=lambda k: 0 if k.name.endswith(("::copied", "::cloned")) else None))
+                if tab is None or not first:
+                    ok_all = False
+                    continue
+                ascii_vs, default_vs = tab
+                is_ne = cd.call.name.endswith("::ne")
+                if is_ne and not (var in default_vs and len(default_vs) == 1):
+                    ok_all = False
+                if not is_ne and var not in ascii_vs:
+                    ok_all = False
+            if ok_all:
+                for e in cfg.bool_edges(f, sb, not cd.neg):        # the side on which the call itself answers true
+                    removed.add(e)
+                    descr[e] = "a marker decoded from an ASCII first byte (%s)" % f.tloc(sb)
     for _ in range(8):
         reach = cfg.reach_from(f, 0, removed_edges=removed)
         grew = False
